@@ -67,6 +67,7 @@ type loopInfo struct {
 type assignLoc struct {
 	loc   Loc
 	whole bool // slice contents "[*]": all indices of backing array
+	wholeKey bool // an entire heap array (every reference)
 	src   string
 }
 
